@@ -569,3 +569,27 @@ package sam
 //@ func Variants prefix
 //@   modifies everything
 //@   after if#3: assert [c18.oneref] len(refs) == 1
+
+//@ # C11 (SAM side): each received pair's rows are byte-encoded in place with the encoding table (so they are the rows
+//@ # `variants` reads from the FASTA form of the same pair, C16/EA_case), the offset tables are GetMSAOffsets of the
+//@ # encoded reference row, and GetVariantsPair's result is forwarded unchanged.
+//@ func getVariantsSam
+//@   modifies everything
+//@   requires forall(t, 0, len(recv(cAlignPair)), len(recv(cAlignPair)[t].ref) == len(recv(cAlignPair)[t].query) && disjoint(recv(cAlignPair)[t].ref, recv(cAlignPair)[t].query))
+//@   loop 1:
+//@     writes everything
+//@     invariant len(sent(cVariants)) == range_i && len(sent(cErr)) == 0
+//@     invariant forall(t, 0, range_i, sent(cVariants)[t].Queryname == recv(cAlignPair)[t].queryname && sent(cVariants)[t].Idx == recv(cAlignPair)[t].idx)
+//@   loop 2:
+//@     invariant len(sent(cVariants)) == range_i1 && len(sent(cErr)) == 0
+//@     invariant forall(j, 0, range_i, pair.query[j] == EA[pre(1, pair.query[j])]) && forall(j, range_i, len(pair.query), pair.query[j] == pre(1, pair.query[j]))
+//@     invariant forall(j, 0, len(pair.ref), pair.ref[j] == pre(1, pair.ref[j]))
+//@   loop 3:
+//@     invariant len(sent(cVariants)) == range_i1 && len(sent(cErr)) == 0
+//@     invariant forall(j, 0, len(pair.query), pair.query[j] == EA[pre(1, pair.query[j])])
+//@     invariant forall(j, 0, range_i, pair.ref[j] == EA[pre(1, pair.ref[j])]) && forall(j, range_i, len(pair.ref), pair.ref[j] == pre(1, pair.ref[j]))
+//@   before call:GetVariantsPair#1: assert [c11.args] pair == recv(cAlignPair)[range_i] && forall(j, 0, len(pair.ref), pair.ref[j] == EA[pre(1, pair.ref[j])] && pair.query[j] == EA[pre(1, pair.query[j])])
+//@   before call:GetVariantsPair#1: assert [c11.offsets] len(offsetMSACoord) == len(pair.ref) && forall(j, 0, len(pair.ref), implies(pair.ref[j] != 244, offsetMSACoord[j] == count(k, 0, j, pair.ref[k] == 244)) && implies(pair.ref[j] == 244, offsetMSACoord[j] == 0))
+//@   before call:GetVariantsPair#1: assert [c11.wiring] sameslice(arg(0), pair.ref) && sameslice(arg(1), pair.query) && arg(2) == pair.refname && arg(3) == pair.queryname && arg(4) == pair.idx && sameslice(arg(5), cdsregions) && sameslice(arg(6), intregions) && sameslice(arg(7), offsetRefCoord) && sameslice(arg(8), offsetMSACoord)
+//@   before call:GetMSAOffsets#1: assert [c11.offsets.of] sameslice(arg(0), pair.ref)
+//@   before send#2: assert [c11.forward] err == nil && AS.Queryname == pair.queryname && AS.Idx == pair.idx
